@@ -143,7 +143,8 @@ fn hwb_like(_name: &str) -> Option<(usize, usize)> { None }
 fn space_colours<T: F>(name: &str, small: bool) -> Vec<[T; 3]> {
     let base = name.split(':').next().unwrap();
     let bx = space_box(if name.starts_with("Xyz") { name } else { base });
-    with_interior(base, &bx, small, hwb_like(base), lattice_colours::<T, 3>(&bx, small, hwb_like(base)))
+    // + the edge lattice of the coverage audit (c07_more.rs, A): the admissible values closest to every bound, in both component types
+    crate::c07_more::extend(&bx, with_interior(base, &bx, small, hwb_like(base), lattice_colours::<T, 3>(&bx, small, hwb_like(base))))
 }
 
 // ------------------------------------------------------------------------------------------------ judging one call
@@ -229,16 +230,16 @@ fn run_pairs<T: Direct>(out: &mut Out, thorough: bool) {
 // ------------------------------------------------------------------------------------------------ B. hand-written edges, other standards / white points
 
 #[derive(Clone, Copy, PartialEq)]
-enum Kn { None, PowLaw, Hsluv, HslStd }
+pub(crate) enum Kn { None, PowLaw, Hsluv, HslStd }
 
 /// one hand-written edge on the lattice of its source space: correspondence line + oracle
-fn edge<S, D, T: F, const N: usize, const M: usize>(out: &mut Out, src: &str, dst: &str, kn: Kn, small: bool, in_gamut_min: &dyn Fn(&[T; N]) -> f64)
+pub(crate) fn edge<S, D, T: F, const N: usize, const M: usize>(out: &mut Out, src: &str, dst: &str, kn: Kn, small: bool, in_gamut_min: &dyn Fn(&[T; N]) -> f64)
 where S: ArrayCast<Array = [T; N]>, D: ArrayCast<Array = [T; M]> + FromColorUnclamped<S> {
     let base = src.split(':').next().unwrap();
     let bx3 = space_box(if src.starts_with("Xyz") { src } else { base });
     let mut bx = [Comp::R(0.0, 0.0); N];
     for i in 0..N { bx[i] = bx3[i]; }
-    let cs = with_interior(base, &bx, small, hwb_like(base), lattice_colours::<T, N>(&bx, small, hwb_like(base)));
+    let cs = crate::c07_more::extend(&bx, with_interior(base, &bx, small, hwb_like(base), lattice_colours::<T, N>(&bx, small, hwb_like(base))));
     let what = format!("edge:{}->{}", src, dst);
     for a in &cs {
         let a = *a;
@@ -247,9 +248,10 @@ where S: ArrayCast<Array = [T; N]>, D: ArrayCast<Array = [T; M]> + FromColorUncl
         let known = |v: &[T]| -> Option<String> {
             match kn {
                 Kn::PowLaw => {
-                    if v.iter().any(|x| x.to64().is_nan()) {
+                    if v.iter().any(|x| x.to64().is_nan()) && in_gamut_min(&a) < 0.0 {
                         // pure power-law encoding of a negative linear component: inside the destination gamut (up to the 1e-6 the 7-digit
-                        // matrices are apart from exact inverses) it is finding D6, outside it the out-of-gamut variant
+                        // matrices are apart from exact inverses) it is finding D6, outside it the out-of-gamut variant.  (Coverage audit: a NaN
+                        // WITHOUT a negative linear component is not that finding and stays a violation.)
                         Some(if in_gamut_min(&a) >= -1e-6 { "powlaw-nan".to_string() } else { "powlaw-nan-out-of-gamut".to_string() })
                     } else { None }
                 }
@@ -257,7 +259,7 @@ where S: ArrayCast<Array = [T; N]>, D: ArrayCast<Array = [T; M]> + FromColorUncl
                 Kn::HslStd => {
                     // white (lightness exactly 1) arriving as (1+ulp, 1-ulp, 1): max != min and max + min rounds to 2
                     if dst.starts_with("Hsl:") && v.len() == 3 && v[1].to64().is_infinite() && v[2].to64() == 1.0 && v[0].finite() { Some("hsl-white-inf".to_string()) }
-                    else if v.iter().any(|x| x.to64().is_nan()) { Some(if in_gamut_min(&a) >= -1e-6 { "powlaw-nan".to_string() } else { "powlaw-nan-out-of-gamut".to_string() }) }
+                    else if v.iter().any(|x| x.to64().is_nan()) && in_gamut_min(&a) < 0.0 { Some(if in_gamut_min(&a) >= -1e-6 { "powlaw-nan".to_string() } else { "powlaw-nan-out-of-gamut".to_string() }) }
                     else { None }
                 }
                 Kn::None => None,
@@ -388,5 +390,7 @@ pub fn run(tier: &str, seed: u64, dir: &str) {
     run_edges_f64(&mut out, th);
     luv_vprime!(&mut out, f32); luv_vprime!(&mut out, f64);
     crate::c07_ops::run_ops(&mut out, th);
+    crate::c07_ops::run_ops_edge(&mut out, th);   // every operator / blend / difference / CAM16 clause again on the edge lattice
+    crate::c07_more::run_more(&mut out, th);      // forms of the API not driven above (AUDIT_C07.md)
     out.finish(dir, "\"exhaustive\":{\"note\":\"the boundary lattice is enumerated completely (every combination of the per-component lattice values), plus a deterministic stream of interior colours per space and near-identical pairs for the differences\"}");
 }
